@@ -7,8 +7,10 @@ package PKGNAME
 // hint outputs (the limbs) are ADVERSARIAL, AssertIsEqual is an assumption the adversary must
 // satisfy, and the log-derivative argument is replaced by its specification (every query value
 // is one of the table entries 0..2^base-1; its soundness is the cryptographic part, see
-// DESIGN.md). For 1 or 2 checked variables of widths in {1,2,3,5,7} (the width mix
-// changes the limb width the gadget picks), whatever limbs the prover supplies:
+// DESIGN.md). For 1 or 2 checks (on two variables or twice on the same variable, which has an
+// identity as builder variables do) of widths in {1,2,3,5,7} (the width mix changes the limb width
+// the gadget picks), through rangecheck's own registration (key-value store + deferred commit),
+// whatever limbs the prover supplies:
 //     all constraints satisfied  =>  every checked value is an integer in [0, 2^bits).
 //verif:unwind 300000
 //verif:summarize logderivarg.Build verifSummary_logderivBuild
@@ -27,6 +29,26 @@ func verifFIsIntBelow(x fr.Element, n uint64) bool { return false }
 
 type verifCompiler struct {
 	frontend.Compiler
+	kv       map[any]any
+	deferred []func(frontend.API) error
+}
+
+func (c *verifCompiler) SetKeyValue(key, value any) { c.kv[key] = value }
+func (c *verifCompiler) GetKeyValue(key any) any     { return c.kv[key] }
+func (c *verifCompiler) Defer(cb func(frontend.API) error) {
+	c.deferred = append(c.deferred, cb)
+}
+
+// a circuit variable as the builders hand them out: it has an identity (HashCode) besides its value
+type verifVar struct {
+	id  int
+	val fr.Element
+}
+
+func (v verifVar) HashCode() [16]byte {
+	var h [16]byte
+	h[0] = byte(v.id)
+	return h
 }
 
 func (c *verifCompiler) NewHint(f solver.Hint, nbOutputs int, inputs ...frontend.Variable) ([]frontend.Variable, error) {
@@ -47,6 +69,8 @@ func verifVal(v frontend.Variable) fr.Element {
 	switch t := v.(type) {
 	case fr.Element:
 		return t
+	case verifVar:
+		return t.val
 	case int:
 		e.SetUint64(uint64(t))
 	case *big.Int:
@@ -104,19 +128,28 @@ func verifSummary_logderivBuild(api frontend.API, table logderivarg.Table, queri
 func verifHarness_commitRangeCheck() {
 	widths := []int{1, 2, 3, 5, 7}
 	nb := 1 + verifChoose(2)
-	c := &commitChecker{}
+	sameVar := nb == 2 && verifChoose(2) == 1 // the second check may be on the very same variable, with another width
+	api := &verifAPI{comp: &verifCompiler{kv: map[any]any{}}}
 	vals := make([]fr.Element, nb)
 	bits := make([]int, nb)
 	for i := 0; i < nb; i++ {
 		bits[i] = widths[verifChoose(len(widths))]
-		vals[i] = verifNondetFr("checked") // any field element
-		c.Check(vals[i], bits[i])
+		v := verifVar{id: i, val: verifNondetFr("checked")} // any field element
+		if i == 1 && sameVar {
+			v = verifVar{id: 0, val: vals[0]}
+		}
+		vals[i] = v.val
+		// each gadget asks for the circuit's range checker, as callers of rangecheck.New do
+		newCommitRangechecker(api).Check(v, bits[i])
 	}
 	verifNbQueries = 0
-	api := &verifAPI{comp: &verifCompiler{}}
-	err := c.commit(api)
+	verifAssert(len(api.comp.deferred) == 1, "one deferred commit per circuit")
+	var err error
+	for _, cb := range api.comp.deferred {
+		err = cb(api)
+	}
 	verifAssert(err == nil, "commit succeeds")
-	verifAssert(verifNbQueries >= nb, "every checked variable contributes queries")
+	verifAssert(verifNbQueries >= 1, "checked variables contribute queries")
 	for i := 0; i < nb; i++ {
 		verifAssert(verifFIsIntBelow(vals[i], uint64(1)<<uint(bits[i])), "constraints satisfied => the checked value is an integer below 2^bits")
 	}
